@@ -947,7 +947,7 @@ func c05NamesQuoted(c *Ctx, p *Prog, pp *packages.Package) {
 // ||) and whose body — directly or through one function of the package — iterates those lists, must let every list
 // be printed when it is not empty: for each list L the condition is true in the world where L alone is non-empty.
 func c05ListPrintGuard(c *Ctx, p *Prog, pp *packages.Package) {
-	c.Min("list-print-guard", "emptiness guards around list printing", listGuardRule(c, p, pp, ""), 10)
+	c.Min("list-print-guard", "emptiness guards around list printing", listGuardRule(c, p, pp, ""), 8)
 }
 
 // listGuardRule is the rule for one package; prefix tells packages apart in obligation keys.
